@@ -1013,6 +1013,10 @@ type vkR struct {
 	e   *vkE
 }
 type vkU struct{ n int64 }
+type vkS1 struct{ _ int }
+type vkS2 struct{ _ int }
+type vkS3 struct{ _ int }
+type vkS4 struct{ _ int }
 
 type vkStressScope struct {
 	s      Scope
@@ -1181,6 +1185,12 @@ func TestVerifConcStress(t *testing.T) {
 		wc.AddScoped(func(in vkQIn) *vkQ { runtime.Gosched(); return &vkQ{e: in.E, f: in.F} })
 		wc.AddScoped(func(sc Scope, ctx context.Context, e *vkE) *vkR { return &vkR{sc: sc, ctx: ctx, e: e} })
 		wc.AddTransient(func() *vkU { n := uctr.Add(1); runtime.Gosched(); return &vkU{n: n} })
+		// four singletons of different types: a fresh scope is asked for all of them at the same moment
+		wc.AddSingleton(func() *vkS1 { return &vkS1{} })
+		wc.AddSingleton(func() *vkS2 { return &vkS2{} })
+		wc.AddSingleton(func() *vkS3 { return &vkS3{} })
+		wc.AddSingleton(func() *vkS4 { return &vkS4{} })
+		singTypes := []reflect.Type{reflect.TypeOf((*vkS1)(nil)), reflect.TypeOf((*vkS2)(nil)), reflect.TypeOf((*vkS3)(nil)), reflect.TypeOf((*vkS4)(nil))}
 		wprov, werr := wc.Build()
 		if werr != nil {
 			report(round, "C08", "wiring bursts: Build rejected a valid registration set: "+werr.Error())
@@ -1222,8 +1232,19 @@ func TestVerifConcStress(t *testing.T) {
 					}
 				})
 			}
+			var sings [4]any
+			for k := range singTypes {
+				k := k
+				run(func() { sings[k], _ = scs[1].Get(singTypes[k]) })
+			}
 			close(start)
 			bw.Wait()
+			for k, typ := range singTypes {
+				want, _ := wprov.Get(typ)
+				if sings[k] == nil || reflect.TypeOf(sings[k]) != typ || sings[k] != want {
+					report(round, "C09,C01,C04", fmt.Sprintf("a fresh scope was asked for four singletons of different types at the same moment: the answer for %v is %T (%p), the provider's singleton is %p", typ, sings[k], sings[k], want))
+				}
+			}
 			for k := 0; k < 2; k++ {
 				ev, _ := scs[k].Get(reflect.TypeOf((*vkE)(nil)))
 				fv, _ := scs[k].Get(reflect.TypeOf((*vkF)(nil)))
